@@ -39,6 +39,8 @@ class Reject(Exception):
 
 def ref_admit(specs, node, t):
     """The documented pipeline for the hierarchy-free, hook-free fragment: value (canonical) or Reject."""
+    if t is None or t == 'any':
+        return plain(node)          # untyped / Any: plain data (all tags in this fragment are core tags)
     if t in ('str', 'int', 'float', 'bool'):
         if not isinstance(node, yaml.ScalarNode) or node.tag != T + t:
             raise Reject(f'expected {t}')
@@ -153,6 +155,8 @@ class OutOfScope(Exception):
 
 def rec_count(specs, node, t):
     """How many types the documented recognition rules find for the node at type t: 0, 1 or 2 (= several)."""
+    if t is None or t == 'any':
+        return 1
     if t in ('str', 'int', 'float', 'bool'):
         return int(isinstance(node, yaml.ScalarNode) and node.tag == T + t)
     if t[0] == 'optional':
@@ -278,6 +282,33 @@ def tie(ctx, model_ok=True):
                 for d in (docs if ctx['tier'] != 'quick' else rnd.sample(docs, 70)):
                     try:
                         yield specs, t, loadcase.serialize(encode.copy_tree(d)), 'small'
+                    except Exception:      # noqa
+                        continue
+        # 2b. directed, judged by the reference oracle: a Union of two unrelated classes one of which takes _yatiml_extra (in both
+        #     signature positions), and explicit nulls at parameters whose type admits null
+        S, M, Q = loadcase.S, loadcase.M, loadcase.Q
+        for extra_at in (None, 2):
+            fam = [{'name': 'Tg', 'kind': 'obj', 'bases': [], 'extra': True, 'registered': True, 'extra_at': extra_at,
+                    'params': [{'name': 'value', 'type': 'int', 'required': True}, {'name': 'name', 'type': 'str', 'required': True},
+                               {'name': 'note', 'type': ('optional', 'str'), 'required': False}]},
+                   {'name': 'Pl', 'kind': 'obj', 'bases': [], 'extra': False, 'registered': True,
+                    'params': [{'name': 'value', 'type': 'int', 'required': True},
+                               {'name': 'maybe', 'type': ('optional', 'int'), 'required': True},
+                               {'name': 'free', 'type': None, 'required': True}]},
+                   {'name': 'Ho', 'kind': 'obj', 'bases': [], 'extra': False, 'registered': True,
+                    'params': [{'name': 'item', 'type': ('union', [('class', 'Tg'), ('class', 'Pl')]), 'required': True}]}]
+            i7, nul = S('7', 'int'), S('null', 'null')
+            items = [M([(S('value'), i7), (S('maybe'), nul), (S('free'), nul)]), M([(S('value'), i7), (S('maybe'), i7), (S('free'), S('x'))]),
+                     M([(S('name'), S('x')), (S('value'), i7)]), M([(S('name'), S('x')), (S('value'), i7), (S('note'), nul)]),
+                     M([(S('name'), S('x')), (S('value'), i7), (S('zz'), i7)]), M([(S('name'), S('x'))]), M([(S('value'), i7)]),
+                     M([(S('value'), i7), (S('maybe'), nul)]), M([(S('value'), i7), (S('free'), nul)]), M([]),
+                     M([(S('value'), S('x')), (S('maybe'), nul), (S('free'), nul)]), M([(S('name'), nul), (S('value'), i7)])]
+            for it in items:
+                for tyspec, node in ((('class', 'Ho'), M([(S('item'), encode.copy_tree(it))])),
+                                     (('union', [('class', 'Tg'), ('class', 'Pl')]), encode.copy_tree(it)),
+                                     (('class', 'Pl'), encode.copy_tree(it)), (('class', 'Tg'), encode.copy_tree(it))):
+                    try:
+                        yield fam, tyspec, loadcase.serialize(node), 'flat-directed'
                     except Exception:      # noqa
                         continue
         # 3. the hierarchy-free fragment: valid documents and corruptions (also judged by the reference oracle)
